@@ -77,7 +77,7 @@ template <class Cn, class E, bool Static> struct Runner {
     void obs(Ev &e, int k) {
         e.i("c", k);
         if (!exists[k]) { e.i("size", -1).ints("contents", std::vector<long long>()).i("blk", -1).bytes("gl", "", 0).bytes("gr", "", 0); return; }
-        std::vector<long long> vals; size_t n = c(k).size(); for (size_t j = 0; j < n && j < 64; ++j) vals.push_back(val_of(c(k).data()[j]));
+        std::vector<long long> vals; size_t n = c(k).size(); for (size_t j = 0; j < n && j < 200000; ++j) vals.push_back(val_of(c(k).data()[j]));
         e.i("size", (long)n).ints("contents", vals).i("blk", n || !Static ? block_of(c(k).data()) : block_of(c(k).data()));
         e.bytes("gl", mem[k], 16).bytes("gr", mem[k] + 16 + sizeof(Cn), 16);
     }
@@ -119,7 +119,7 @@ template <class Cn, class E, bool Static> struct Runner {
             else if (name == "At") { if constexpr (requires { c(k).at(0); }) { try { ret = val_of(c(k).at(a)); } catch (const std::out_of_range &) { threw = 1; ret = 0; } } else unsupported(name); }
             else { fprintf(stderr, "bad op %s\n", name.c_str()); exit(3); }
         } else { fprintf(stderr, "bad static op %s\n", name.c_str()); exit(3); }
-        std::vector<long long> oc; if ((name == "MoveCtor" || name == "MoveAssign") && exists[d]) { size_t n = c(d).size(); for (size_t j = 0; j < n && j < 64; ++j) oc.push_back(val_of(c(d).data()[j])); }
+        std::vector<long long> oc; if ((name == "MoveCtor" || name == "MoveAssign") && exists[d]) { size_t n = c(d).size(); for (size_t j = 0; j < n && j < 200000; ++j) oc.push_back(val_of(c(d).data()[j])); }
         Ev e("Op"); e.str("name", name.c_str()).i("a", a).i("b", b).i("ret", ret).i("threw", threw).ints("src", srcv).ints("ocontents", oc); obs(e, k); e.end();
         if (name == "CopyCtor" || name == "MoveCtor" || name == "CopyAssign" || name == "MoveAssign" || name == "Eq" || name == "Less") { Ev e2("Other"); obs(e2, d); e2.end(); }
     }
@@ -130,8 +130,8 @@ struct Any { virtual void op(const std::vector<std::string> &) = 0; virtual void
 template <class Cn, class E, bool S> struct Impl : Any { Runner<Cn, E, S> r; void op(const std::vector<std::string> &t) override { r.op(t); } void finish() override { r.finish(); } };
 static Any *make(const std::string &kind, const std::string &elem, int N) {
     if (kind == "vec") { if (elem == "tracked") return new Impl<igris::vector<Tracked, TrackAlloc<Tracked>>, Tracked, false>(); return new Impl<igris::vector<int, TrackAlloc<int>>, int, false>(); }
-    if (elem == "tracked") { if (N == 1) return new Impl<igris::static_vector<Tracked, 1>, Tracked, true>(); if (N == 2) return new Impl<igris::static_vector<Tracked, 2>, Tracked, true>(); if (N == 3) return new Impl<igris::static_vector<Tracked, 3>, Tracked, true>(); if (N == 4) return new Impl<igris::static_vector<Tracked, 4>, Tracked, true>(); if (N == 5) return new Impl<igris::static_vector<Tracked, 5>, Tracked, true>(); fprintf(stderr, "capacity %d is not instantiated\n", N); exit(3); }
-    if (N == 1) return new Impl<igris::static_vector<int, 1>, int, true>(); if (N == 2) return new Impl<igris::static_vector<int, 2>, int, true>(); if (N == 3) return new Impl<igris::static_vector<int, 3>, int, true>(); if (N == 4) return new Impl<igris::static_vector<int, 4>, int, true>(); if (N == 5) return new Impl<igris::static_vector<int, 5>, int, true>(); fprintf(stderr, "capacity %d is not instantiated\n", N); exit(3);
+    if (elem == "tracked") { if (N == 1) return new Impl<igris::static_vector<Tracked, 1>, Tracked, true>(); if (N == 2) return new Impl<igris::static_vector<Tracked, 2>, Tracked, true>(); if (N == 3) return new Impl<igris::static_vector<Tracked, 3>, Tracked, true>(); if (N == 4) return new Impl<igris::static_vector<Tracked, 4>, Tracked, true>(); if (N == 5) return new Impl<igris::static_vector<Tracked, 5>, Tracked, true>(); if (N == 300) return new Impl<igris::static_vector<Tracked, 300>, Tracked, true>(); fprintf(stderr, "capacity %d is not instantiated\n", N); exit(3); }
+    if (N == 1) return new Impl<igris::static_vector<int, 1>, int, true>(); if (N == 2) return new Impl<igris::static_vector<int, 2>, int, true>(); if (N == 3) return new Impl<igris::static_vector<int, 3>, int, true>(); if (N == 4) return new Impl<igris::static_vector<int, 4>, int, true>(); if (N == 5) return new Impl<igris::static_vector<int, 5>, int, true>(); if (N == 300) return new Impl<igris::static_vector<int, 300>, int, true>(); fprintf(stderr, "capacity %d is not instantiated\n", N); exit(3);
 }
 #ifndef VEC_ENTRY
 #define VEC_ENTRY main_entry
